@@ -857,10 +857,9 @@ pub fn judge(spec: &SchedSpec, trace: &RunTrace, panics: &[String], out: &SchedO
             fs.push(finding("worker_dead", "the background worker is not running at the end of the run".to_string()));
         }
         // requested index dumps complete: a closed blob keeps its index in memory only while a
-        // deferred dump is registered, which takes a delete into a closed blob
-        let deletes = spec.clients.iter().flatten().chain(spec.followup.iter()).any(|c| matches!(c, COp::D { .. }))
-            || spec.prefix.iter().any(|o| matches!(o, Op::Delete { .. }));
-        if !deletes && !out.closed_without_index.is_empty() {
+        // deferred dump is registered
+        // (200 s have passed since the last operation: a deferred dump has fired as well)
+        if !out.closed_without_index.is_empty() {
             fs.push(finding(
                 "index_dump",
                 format!("at quiescence the closed blobs {:?} have no index file: a requested index dump did not complete", out.closed_without_index),
